@@ -52,7 +52,7 @@ Theorem C04_typed :
                In t
                  [ErrUnknownFlag; ErrExpectedArgument; ErrNoArgumentForBool; ErrMarshal; ErrInvalidChoice;
                   ErrHelp]) \/ (exists m : str, e = EForeign m)).
-Proof. exact C04_typed_errors. Qed.
+Proof. exact @C04_typed_errors. Qed.
 Print Assumptions C04_typed.
 
 Theorem C04_typed_loop :
@@ -60,6 +60,30 @@ Theorem C04_typed_loop :
            (fuel : nat) (s : pst) (r : rt) (s' : pst) (r' : rt),
          run_loop cfg orc root help_text fuel s r = Ok (s', r') ->
          ps_err s' = ps_err s \/ (exists e : err, ps_err s' = Some e /\ is_loop_err e).
-Proof. exact C04_typed_errors_loop. Qed.
+Proof. exact @C04_typed_errors_loop. Qed.
 Print Assumptions C04_typed_loop.
+
+(* ---- added by bin/mkprops (batch 2) ---- *)
+From GoFlags Require Import Base.Str Base.Utf8 Golib.Strings Golib.Strconv Model.Types Model.Tag Model.Scan Model.Lookup Model.Convert Model.State Model.Closest Model.Help Model.Parse Model.Ini Model.Complete.
+From GoFlags Require Import Proofs.IniPanicSpec.
+
+(* including the prologue (default literals) of ParseArgs *)
+Theorem C04_whole_parse_args_panics_benign :
+  forall (cfg : pconfig) (orc : oracles) (w : Scenario.world) (args : list str) (t : str),
+         Scenario.parse_args cfg orc w args = Panic t -> ParseFrame.benign_panic t.
+Proof. exact @C04_prologue_panics_benign. Qed.
+Print Assumptions C04_whole_parse_args_panics_benign.
+
+Theorem C04_setup_error_returned_untouched :
+  forall (cfg : pconfig) (orc : oracles) (w : Scenario.world) (args : list str) (e : err),
+         Scenario.w_internal w = Some e ->
+         Scenario.parse_args cfg orc w args = Ok (w, {| pr_ret := None; pr_err := Some e |}).
+Proof. exact @C04_internal_error_returned. Qed.
+Print Assumptions C04_setup_error_returned_untouched.
+
+Theorem C04_completion_panics_benign :
+  forall (cfg : pconfig) (orc : oracles) (w : Scenario.world) (args : list str) (t : str),
+         Scenario.complete_args cfg orc w args = Panic t -> ParseFrame.benign_panic t.
+Proof. exact @C04_complete_panics_benign. Qed.
+Print Assumptions C04_completion_panics_benign.
 
